@@ -16,16 +16,19 @@ def cell(stype, transport, prefix, how, scen):
     if prefix == "pending-handshake":
         ops += [{"op": "client", "k": 1, "name": "a", "kind": "good"}, {"op": "client", "k": 3, "name": "a", "kind": "stall", "at": 10}]; eofs += [1, 3]
     ops.append({"op": how})
-    settle = how == "drop"
+    settle = how in ("drop", "close_abandoned")
     ops.append({"op": "probe_settle" if settle else "probe", "name": "a"})
     if transport == "ipc":
         ops.append({"op": "ipc_exists", "name": "a", "settle": settle})
     for k in eofs:
         ops.append({"op": "check_eof", "k": k})
     ops += [{"op": "tasks"}, {"op": "fds"}]
-    return {"scen": scen, "sock": stype, "ops": ops, "tag": "%s/%s/%s" % (transport, prefix, how)}
+    sc = {"scen": scen, "sock": stype, "ops": ops, "tag": "%s/%s/%s" % (transport, prefix, how)}
+    if how == "close_abandoned":
+        sc["rt"] = "current"
+    return sc
 
-DROP_STATES = ["no-peers", "idle-peers", "unread-input", "half-message", "recv-abandoned", "send-abandoned", "peer-eof-unobserved", "mid-traffic",
+DROP_STATES = ["no-peers", "idle-peers", "unread-input", "half-message", "recv-abandoned", "send-abandoned", "recv-and-send-abandoned", "peer-eof-unobserved", "mid-traffic",
                "late-registration", "late-registration-with-peers", "late-registration-peer-gone"]
 
 def drop_script(t, state, how, scen):
@@ -51,10 +54,13 @@ def drop_script(t, state, how, scen):
         ops += [att(1), att(2), {"op": "pbegin", "c": 1, "m": dlvlib.msg_for(t, 1, 2) if recvs else [S.hx(b"\x01" + b"y" * 300)], "upto": 500}, {"op": "settle"}]
     elif state == "recv-abandoned":
         ops += [att(1), att(2)] + ([{"op": "recv_poll"}, {"op": "recv_drop"}] if recvs else [])
-    elif state == "send-abandoned":
-        ops += [att(1), att(2)] + sub(1) + sub(2) + [{"op": "settle"}, {"op": "credit", "c": 1, "n": 0}, {"op": "credit", "c": 2, "n": 0}]
+    elif state in ("send-abandoned", "recv-and-send-abandoned"):
+        ops += [att(1), att(2)] + sub(1) + sub(2) + [{"op": "settle"}]
+        if state == "recv-and-send-abandoned" and recvs:
+            ops += [{"op": "recv_poll"}, {"op": "recv_drop"}]          # every stream has been polled: its waker is registered with the pipe
+        ops += [{"op": "credit", "c": 1, "k": 0}, {"op": "credit", "c": 2, "k": 0}]
         for o in out(1):
-            ops += [dict(o, op=o["op"]), {"op": "call_drop"}]
+            ops += [dict(o, op=o["op"], m=[S.hx(b"Z" * 20000)]), {"op": "call_poll"}, {"op": "call_drop"}]   # blocked on back-pressure, then abandoned
     elif state == "peer-eof-unobserved":
         ops += [att(1), att(2), {"op": "pclose", "c": 1}]
     elif state == "mid-traffic":
@@ -111,7 +117,7 @@ def run(chk, replay=None):
         for t in netlib.TYPES:
             for tr in transports:
                 for p in PREFIXES:
-                    for how in ("close", "drop"):
+                    for how in ("close", "drop", "close_abandoned"):
                         scen += 1; fam.append(cell(t, tr, p, how, scen))
         chk.exhaustive = True
     else:
@@ -124,6 +130,9 @@ def run(chk, replay=None):
             for p in PREFIXES:
                 for how in ("close", "drop"):
                     scen += 1; fam.append(cell(t, tr, p, how, scen))
+        # close() abandoned after its first poll, on a single-threaded runtime
+        for t, tr, p in (("PULL", "ipc", "bound-only"), ("DEALER", "ipc", "accepted"), ("REP", "tcp4", "accepted"), ("PUB", "ipc", "mid-traffic"), ("ROUTER", "ipc", "connected-out")):
+            scen += 1; fam.append(cell(t, tr, p, "close_abandoned", scen))
     # close() / unbind report each failure they meet: the endpoint's socket file was replaced by a directory, its removal must fail
     for t in (netlib.TYPES if thorough else ["PULL", "ROUTER", "PUB"]):
         for how in ("close", "unbind"):
